@@ -52,10 +52,6 @@ theorem mem_flatten_set {ps : List (List α)} {i : Nat} {rest : List α} {y : α
   · rw [getElem?_set_ne (Ne.symm e)] at hj
     exact Or.inr ⟨j, q, e, hj, hy⟩
 
-variable (trans : ∀ a b c, le a b = true → le b c = true → le a c = true)
-include trans
-
-omit trans in
 theorem getLast_le_of_pairwise : (l : List α) → (h : l ≠ []) → l.Pairwise (fun a b => le a b = true) →
     (∀ a, le a a = true) → ∀ z ∈ l, le z (l.getLast h) = true
   | [a], _, _, hr, z, hz => by simp at hz; subst hz; exact hr z
@@ -67,8 +63,11 @@ theorem getLast_le_of_pairwise : (l : List α) → (h : l ≠ []) → l.Pairwise
     · exact hs.1 _ (getLast_mem _)
     · exact getLast_le_of_pairwise (b :: r) (by simp) hs.2 hr z (by simpa using hz)
 
-/-- **merge_sorted** -/
-theorem merge_sorted (refl : ∀ a, le a a = true) (ps : List (List α)) (out : List α) (h : MergeRun le ps out)
+/-- **merge_sorted**, relative to a predicate `P` on which `le` is transitive -/
+theorem merge_sorted_on (P : α → Prop)
+    (trans : ∀ a b c, P a → P b → P c → le a b = true → le b c = true → le a c = true)
+    (refl : ∀ a, le a a = true) (ps : List (List α)) (out : List α) (h : MergeRun le ps out)
+    (hP : ∀ p ∈ ps, ∀ a ∈ p, P a)
     (hs : ∀ p ∈ ps, p.Pairwise (fun a b => le a b = true)) :
     out.Pairwise (fun a b => le a b = true) ∧ out.Perm ps.flatten := by
   induction h with
@@ -90,7 +89,13 @@ theorem merge_sorted (refl : ∀ a, le a a = true) (ps : List (List α)) (out : 
           have : (x :: pre' ++ rest) = (x :: pre') ++ rest := by simp
           rw [this] at hsp
           exact (pairwise_append.mp hsp).2.1
-      obtain ⟨ih1, ih2⟩ := ih hs'
+      have hP' : ∀ p ∈ ps.set i rest, ∀ a ∈ p, P a := by
+        intro p hpm a ha
+        rcases mem_or_eq_of_mem_set hpm with h1 | h1
+        · exact hP p h1 a ha
+        · rw [h1] at ha
+          exact hP _ hmem a (by simp [ha])
+      obtain ⟨ih1, ih2⟩ := ih hP' hs'
       have hsp' : ((x :: pre') ++ rest).Pairwise (fun a b => le a b = true) := by simpa using hsp
       have hpre := (pairwise_append.mp hsp').1
       have hcross := (pairwise_append.mp hsp').2.2
@@ -106,6 +111,10 @@ theorem merge_sorted (refl : ∀ a, le a a = true) (ps : List (List α)) (out : 
           cases q with
           | nil => simp at hbq
           | cons y q' =>
+            have hPq := hP _ (mem_of_getElem? hq)
+            have hPa : P a := hP _ hmem a (by
+              have : (x :: pre' ++ rest) = (x :: pre') ++ rest := by simp
+              rw [this]; exact mem_append_left _ ha)
             have hyb : le y b = true := by
               simp only [mem_cons] at hbq
               rcases hbq with rfl | hbq
@@ -118,9 +127,19 @@ theorem merge_sorted (refl : ∀ a, le a a = true) (ps : List (List α)) (out : 
                 exact hmin j (y :: q') y hji hq rfl
               | cons z pre'' =>
                 have hl := hlast z (by simp) j (y :: q') y hji hq rfl
-                exact trans _ _ _ (getLast_le_of_pairwise le (x :: z :: pre'') (by simp) hpre refl a ha) hl
-            exact trans _ _ _ hay hyb
+                have hPl : P ((x :: z :: pre'').getLast (by simp)) := hP _ hmem _ (by
+                  have : (x :: (z :: pre'') ++ rest) = (x :: z :: pre'') ++ rest := by simp
+                  rw [this]; exact mem_append_left _ (getLast_mem _))
+                exact trans _ _ _ hPa hPl (hPq y (by simp)) (getLast_le_of_pairwise le (x :: z :: pre'') (by simp) hpre refl a ha) hl
+            exact trans _ _ _ hPa (hPq y (by simp)) (hPq b hbq) hay hyb
       · have := flatten_set_perm ps i (x :: pre') rest (by simpa using hp)
         exact (Perm.append_left _ ih2).trans this.symm
+
+/-- **merge_sorted** -/
+theorem merge_sorted (trans : ∀ a b c, le a b = true → le b c = true → le a c = true)
+    (refl : ∀ a, le a a = true) (ps : List (List α)) (out : List α) (h : MergeRun le ps out)
+    (hs : ∀ p ∈ ps, p.Pairwise (fun a b => le a b = true)) :
+    out.Pairwise (fun a b => le a b = true) ∧ out.Perm ps.flatten :=
+  merge_sorted_on le (fun _ => True) (fun a b c _ _ _ => trans a b c) refl ps out h (fun _ _ _ _ => trivial) hs
 end
 end Zed
